@@ -444,18 +444,24 @@ impl VersionManager {
             sched_point(pt::R_FADD_CUR);
             let version = self.current_version.fetch_add(1, Ordering::AcqRel) + 1;
 
+            // Increment active reader count while still holding the mutex: a token whose
+            // version has been assigned is always visible in the counter, which is what
+            // try_advance_min_version relies on.
+            #[cfg(zipora_verif)]
+            sched_point(pt::R_INC);
+            self.active_readers.fetch_add(1, Ordering::Relaxed);
+
             #[cfg(zipora_verif)]
             sched_point(pt::R_UNLOCK);
             (version, current_min)
         } else {
             // Single-threaded modes don't need version tracking
+            // Increment active reader count
+            #[cfg(zipora_verif)]
+            sched_point(pt::R_INC);
+            self.active_readers.fetch_add(1, Ordering::Relaxed);
             (1, 1)
         };
-
-        // Increment active reader count
-        #[cfg(zipora_verif)]
-        sched_point(pt::R_INC);
-        self.active_readers.fetch_add(1, Ordering::Relaxed);
 
         // Update statistics
         if let Ok(mut stats) = self.stats.lock() {
@@ -598,6 +604,18 @@ impl VersionManager {
     /// This is a simplified version - in a full implementation, this would
     /// track individual token versions in a linked list.
     fn try_advance_min_version(&self) {
+        // Versions are assigned and the active counters incremented under
+        // `token_chain_mutex`.  Holding it here means: if both counters read zero, no token
+        // is live and none can be issued before `min_version` is stored, so the stored value
+        // can never exceed the version of a live token.  (The mutex guards no data, so a
+        // poisoned lock is still usable.)
+        #[cfg(zipora_verif)]
+        sched_point(pt::TA_LOCK);
+        let _lock = self
+            .token_chain_mutex
+            .lock()
+            .unwrap_or_else(|poisoned| poisoned.into_inner());
+
         #[cfg(zipora_verif)]
         sched_point(pt::TA_LOAD_AR);
         if self.active_readers.load(Ordering::Relaxed) == 0
@@ -614,6 +632,8 @@ impl VersionManager {
             sched_point(pt::TA_STORE_MIN);
             self.min_version.store(current, Ordering::Release);
         }
+        #[cfg(zipora_verif)]
+        sched_point(pt::TA_UNLOCK);
     }
 
     /// Returns version manager statistics.
